@@ -158,6 +158,13 @@ def main(mode):
                             pass
                         runs += 1
                         fail = fail or check_send(data, list(script) + [("all",)] * 3, blocking)
+    # long runs of retryable errors within ONE call (the back-off delays are drawn from a generator: it must not run dry)
+    if not fail:
+        for k in (5, 13, 14, 20, 60, 300):
+            for waitall in (True, False):
+                runs += 2
+                fail = fail or check_recv(b"ABCDEFGH", 4, [("err", RETRY)] * k + [("data", 2)] + [("err", RETRY)] * k, waitall, False)
+                fail = fail or check_send(b"abcdefgh", [("err", RETRY)] * k + [("data", 3)] + [("err", RETRY)] * k + [("all",)] * 3, False)
     # randomised longer scripts
     if not fail:
         for _ in range(300 if mode != "thorough" else 5000):
